@@ -75,7 +75,7 @@ package datarecording
 
 // guarded data: the batches never share storage
 //@ pred c35Disj(t) = (forall k1 int, k2 int :: k1 in t.tables && k2 in t.tables && k1 != k2 && cap(t.tables[k1].entries) > 0 ==> ref(t.tables[k1].entries) != ref(t.tables[k2].entries))
-//@   && (forall k int :: k in t.tables ==> ref(t.tables[k].entries) <= allocTop)
+//@   && (forall k int :: k in t.tables ==> ref(t.tables[k].entries) <= allocTop && (cap(t.tables[k].entries) > 0 ==> ref(t.tables[k].entries) != 0) && len(t.tables[k].entries) <= cap(t.tables[k].entries))
 
 // location interning: IDs are 1..n and pairwise different (hence a bijection onto 1..n)
 //@ pred c35LocBij(t) = len(t.locationInfo) < MaxInt64 ==> ((forall s int :: s in t.locationInfo ==> 1 <= t.locationInfo[s] && t.locationInfo[s] <= len(t.locationInfo))
@@ -89,7 +89,7 @@ package datarecording
 //@   assigns key("O|datarecording.table|.entries"), t.entryCount, elems(t.locationInfo)
 //@   requires c35Disj(t) && c35LocBij(t)
 //@   ensures forall k int :: k in t.tables ==> len(t.tables[k].entries) >= old(len(t.tables[k].entries))
-//@   ensures forall k int, j nat :: k in t.tables && j < old(len(t.tables[k].entries)) ==> t.tables[k].entries[j] == old(t.tables[k].entries[j])
+//@   ensures forall k int :: k in t.tables ==> (forall j in 0..old(len(t.tables[k].entries)) :: t.tables[k].entries[j] == old(t.tables[k].entries[j]))
 //@   ensures forall s int :: old(s in t.locationInfo) ==> s in t.locationInfo && t.locationInfo[s] == old(t.locationInfo[s])
 
 // ---------------------------------------------------------------------------------------------------------------------
@@ -123,6 +123,8 @@ package datarecording
 //@   ensures forall s int :: s != loc ==> ((s in t.locationInfo) <==> old(s in t.locationInfo)) && (old(s in t.locationInfo) ==> t.locationInfo[s] == old(t.locationInfo[s]))
 //@   label C35.loc.prefix
 //@   ensures forall j in 0..old(len(t.tables["location"].entries)) :: t.tables["location"].entries[j] == old(t.tables["location"].entries[j])
+//@   label C35.loc.storage
+//@   ensures ref(t.tables["location"].entries) == old(ref(t.tables["location"].entries)) || fresh(t.tables["location"].entries)
 //@   label C35.loc.bijection
 //@   ensures c35LocBij(t)
 //@   label C35.loc.disjoint
@@ -148,7 +150,7 @@ package datarecording
 //@   label C35.row.grow
 //@   ensures forall k int :: k in t.tables ==> len(t.tables[k].entries) >= old(len(t.tables[k].entries))
 //@   label C35.row.prefix
-//@   ensures forall k int, j nat :: k in t.tables && j < old(len(t.tables[k].entries)) ==> t.tables[k].entries[j] == old(t.tables[k].entries[j])
+//@   ensures forall k int :: k in t.tables ==> (forall j in 0..old(len(t.tables[k].entries)) :: t.tables[k].entries[j] == old(t.tables[k].entries[j]))
 //@   label C35.row.locs
 //@   ensures forall s int :: old(s in t.locationInfo) ==> s in t.locationInfo && t.locationInfo[s] == old(t.locationInfo[s])
 //@   label C35.row.quiet
@@ -157,9 +159,12 @@ package datarecording
 //@   ensures c35Disj(t) && c35LocBij(t)
 //@   assigns key("O|datarecording.table|.entries"), key("E|any|"), t.entryCount, elems(t.locationInfo), c35Cnt, c35Typ, c35Val, c35CurTyp, c35CurVal
 //@   loop 0: invariant 0 <= i && (fresh(v) || cap(v) == 0) && c35Disj(t) && c35LocBij(t)
+//@   loop 0: invariant cap(v) > 0 ==> (forall k int :: k in t.tables ==> ref(t.tables[k].entries) != ref(v))
 //@   loop 0: invariant c35Cnt == old(c35Cnt) && c35Typ == old(c35Typ) && c35Val == old(c35Val) && c35CurTyp == typeid(task) && c35CurVal == ifaceval(task)
 //@   loop 0: invariant forall k int :: k in t.tables ==> len(t.tables[k].entries) >= atlock(len(t.tables[k].entries))
-//@   loop 0: invariant forall k int, j nat :: k in t.tables && j < atlock(len(t.tables[k].entries)) ==> t.tables[k].entries[j] == atlock(t.tables[k].entries[j])
+//@   loop 0: invariant forall j in 0..atlock(len(t.tables["location"].entries)) :: t.tables["location"].entries[j] == atlock(t.tables["location"].entries[j])
+//@   loop 0: invariant forall k int :: k in t.tables && k != "location" && cap(t.tables[k].entries) > 0 ==> ref(t.tables[k].entries) != ref(t.tables["location"].entries)
+//@   loop 0: invariant forall k int :: k in t.tables && k != "location" ==> (forall j in 0..atlock(len(t.tables[k].entries)) :: t.tables[k].entries[j] == atlock(t.tables[k].entries[j]))
 //@   loop 0: invariant forall k int :: k in t.tables && k != "location" ==> len(t.tables[k].entries) == atlock(len(t.tables[k].entries)) && ref(t.tables[k].entries) == atlock(ref(t.tables[k].entries)) && off(t.tables[k].entries) == atlock(off(t.tables[k].entries))
 //@   loop 0: invariant forall s int :: atlock(s in t.locationInfo) ==> s in t.locationInfo && t.locationInfo[s] == atlock(t.locationInfo[s])
 
@@ -205,7 +210,7 @@ package datarecording
 //@   label C35.flushloc.count
 //@   ensures c35Cnt == upd(old(c35Cnt), c35LocStmt(t), old(c35Cnt)[c35LocStmt(t)] + old(len(t.tables["location"].entries)))
 //@   label C35.flushloc.rows
-//@   ensures forall j nat :: j < old(len(t.tables["location"].entries)) ==> c35Typ[c35LocStmt(t)][old(c35Cnt)[c35LocStmt(t)] + j] == typeid(old(t.tables["location"].entries[j])) && c35Val[c35LocStmt(t)][old(c35Cnt)[c35LocStmt(t)] + j] == ifaceval(old(t.tables["location"].entries[j]))
+//@   ensures forall j in 0..old(len(t.tables["location"].entries)) :: c35Typ[c35LocStmt(t)][old(c35Cnt)[c35LocStmt(t)] + j] == typeid(old(t.tables["location"].entries[j])) && c35Val[c35LocStmt(t)][old(c35Cnt)[c35LocStmt(t)] + j] == ifaceval(old(t.tables["location"].entries[j]))
 //@   label C35.flushloc.oldrows
 //@   ensures forall s int, n int :: (s != c35LocStmt(t) || n < old(c35Cnt)[s]) ==> c35Typ[s][n] == old(c35Typ)[s][n] && c35Val[s][n] == old(c35Val)[s][n]
 //@   label C35.flushloc.empty
@@ -214,7 +219,7 @@ package datarecording
 //@   loop 0: invariant -1 <= rangeindex && rangeindex < old(len(t.tables["location"].entries)) && table == t.tables["location"]
 //@   loop 0: invariant len(table.entries) == old(len(table.entries)) && ref(table.entries) == old(ref(table.entries)) && off(table.entries) == old(off(table.entries))
 //@   loop 0: invariant c35Cnt == upd(old(c35Cnt), c35LocStmt(t), old(c35Cnt)[c35LocStmt(t)] + rangeindex + 1)
-//@   loop 0: invariant forall j nat :: j <= rangeindex ==> c35Typ[c35LocStmt(t)][old(c35Cnt)[c35LocStmt(t)] + j] == typeid(old(t.tables["location"].entries[j])) && c35Val[c35LocStmt(t)][old(c35Cnt)[c35LocStmt(t)] + j] == ifaceval(old(t.tables["location"].entries[j]))
+//@   loop 0: invariant forall j in 0..rangeindex + 1 :: c35Typ[c35LocStmt(t)][old(c35Cnt)[c35LocStmt(t)] + j] == typeid(old(t.tables["location"].entries[j])) && c35Val[c35LocStmt(t)][old(c35Cnt)[c35LocStmt(t)] + j] == ifaceval(old(t.tables["location"].entries[j]))
 //@   loop 0: invariant forall s int, n int :: (s != c35LocStmt(t) || n < old(c35Cnt)[s]) ==> c35Typ[s][n] == old(c35Typ)[s][n] && c35Val[s][n] == old(c35Val)[s][n]
 //@   loop 1: invariant 0 <= i && (fresh(v) || cap(v) == 0)
 
@@ -239,7 +244,7 @@ package datarecording
 //@   label C35.flush.count
 //@   ensures old(t.entryCount) != 0 ==> (forall k int :: k in t.tables && k != "location" ==> c35Cnt[c35St(t, k)] == old(c35Cnt)[c35St(t, k)] + old(len(t.tables[k].entries)))
 //@   label C35.flush.order
-//@   ensures old(t.entryCount) != 0 ==> (forall k int, j nat :: k in t.tables && k != "location" && j < old(len(t.tables[k].entries)) ==> c35Typ[c35St(t, k)][old(c35Cnt)[c35St(t, k)] + j] == typeid(old(t.tables[k].entries[j])) && c35Val[c35St(t, k)][old(c35Cnt)[c35St(t, k)] + j] == ifaceval(old(t.tables[k].entries[j])))
+//@   ensures old(t.entryCount) != 0 ==> (forall k int :: k in t.tables && k != "location" ==> (forall j in 0..old(len(t.tables[k].entries)) :: c35Typ[c35St(t, k)][old(c35Cnt)[c35St(t, k)] + j] == typeid(old(t.tables[k].entries[j])) && c35Val[c35St(t, k)][old(c35Cnt)[c35St(t, k)] + j] == ifaceval(old(t.tables[k].entries[j]))))
 //@   label C35.flush.empty
 //@   ensures old(t.entryCount) != 0 ==> (forall k int :: k in t.tables ==> len(t.tables[k].entries) == 0)
 //@   label C35.flush.location
@@ -255,8 +260,8 @@ package datarecording
 //@   loop 0: invariant old(t.entryCount) != 0 && c35Disj(t) && c35LocBij(t)
 //@   loop 0: invariant forall k int :: k in t.tables && k != "location" ==> c35Cnt[c35St(t, k)] == old(c35Cnt)[c35St(t, k)] + (visited(k) ? old(len(t.tables[k].entries)) : 0)
 //@   loop 0: invariant forall k int :: k in t.tables && k != "location" ==> (visited(k) ? len(t.tables[k].entries) == 0 : c35HdrOld(t, k))
-//@   loop 0: invariant forall k int, j nat :: k in t.tables && k != "location" && !visited(k) && j < old(len(t.tables[k].entries)) ==> t.tables[k].entries[j] == old(t.tables[k].entries[j])
-//@   loop 0: invariant forall k int, j nat :: k in t.tables && k != "location" && visited(k) && j < old(len(t.tables[k].entries)) ==> c35Typ[c35St(t, k)][old(c35Cnt)[c35St(t, k)] + j] == typeid(old(t.tables[k].entries[j])) && c35Val[c35St(t, k)][old(c35Cnt)[c35St(t, k)] + j] == ifaceval(old(t.tables[k].entries[j]))
+//@   loop 0: invariant forall k int :: k in t.tables && k != "location" && !visited(k) ==> (forall j in 0..old(len(t.tables[k].entries)) :: t.tables[k].entries[j] == old(t.tables[k].entries[j]))
+//@   loop 0: invariant forall k int :: k in t.tables && k != "location" && visited(k) ==> (forall j in 0..old(len(t.tables[k].entries)) :: c35Typ[c35St(t, k)][old(c35Cnt)[c35St(t, k)] + j] == typeid(old(t.tables[k].entries[j])) && c35Val[c35St(t, k)][old(c35Cnt)[c35St(t, k)] + j] == ifaceval(old(t.tables[k].entries[j])))
 //@   loop 0: invariant forall s int, n int :: n < old(c35Cnt)[s] ==> c35Typ[s][n] == old(c35Typ)[s][n] && c35Val[s][n] == old(c35Val)[s][n]
 //@   loop 0: invariant len(t.tables["location"].entries) >= old(len(t.tables["location"].entries)) && c35Cnt[c35LocStmt(t)] == old(c35Cnt)[c35LocStmt(t)]
 //  ---- loop 1: the batch of the current table
@@ -269,11 +274,11 @@ package datarecording
 //@   loop 1: invariant -1 <= rangeindex && rangeindex < old(len(t.tables[tableName].entries))
 //@   loop 1: invariant c35Cnt[table.statement] == old(c35Cnt)[table.statement] + rangeindex + 1
 //@   loop 1: invariant q ==> c35HdrOld(t, tableName)
-//@   loop 1: invariant q ==> (forall j nat :: j < old(len(t.tables[tableName].entries)) ==> t.tables[tableName].entries[j] == old(t.tables[tableName].entries[j]))
-//@   loop 1: invariant forall j nat :: j <= rangeindex ==> c35Typ[table.statement][old(c35Cnt)[table.statement] + j] == typeid(old(t.tables[tableName].entries[j])) && c35Val[table.statement][old(c35Cnt)[table.statement] + j] == ifaceval(old(t.tables[tableName].entries[j]))
+//@   loop 1: invariant q ==> (forall j in 0..old(len(t.tables[tableName].entries)) :: t.tables[tableName].entries[j] == old(t.tables[tableName].entries[j]))
+//@   loop 1: invariant forall j in 0..rangeindex + 1 :: c35Typ[table.statement][old(c35Cnt)[table.statement] + j] == typeid(old(t.tables[tableName].entries[j])) && c35Val[table.statement][old(c35Cnt)[table.statement] + j] == ifaceval(old(t.tables[tableName].entries[j]))
 //@   loop 1: invariant forall k int :: k in t.tables && k != "location" && k != tableName ==> c35Cnt[c35St(t, k)] == old(c35Cnt)[c35St(t, k)] + (visited(k) ? old(len(t.tables[k].entries)) : 0)
 //@   loop 1: invariant q ==> (forall k int :: k in t.tables && k != "location" && k != tableName ==> (visited(k) ? len(t.tables[k].entries) == 0 : c35HdrOld(t, k)))
-//@   loop 1: invariant q ==> (forall k int, j nat :: k in t.tables && k != "location" && !visited(k) && j < old(len(t.tables[k].entries)) ==> t.tables[k].entries[j] == old(t.tables[k].entries[j]))
-//@   loop 1: invariant forall k int, j nat :: k in t.tables && k != "location" && k != tableName && visited(k) && j < old(len(t.tables[k].entries)) ==> c35Typ[c35St(t, k)][old(c35Cnt)[c35St(t, k)] + j] == typeid(old(t.tables[k].entries[j])) && c35Val[c35St(t, k)][old(c35Cnt)[c35St(t, k)] + j] == ifaceval(old(t.tables[k].entries[j]))
+//@   loop 1: invariant q ==> (forall k int :: k in t.tables && k != "location" && !visited(k) ==> (forall j in 0..old(len(t.tables[k].entries)) :: t.tables[k].entries[j] == old(t.tables[k].entries[j])))
+//@   loop 1: invariant forall k int :: k in t.tables && k != "location" && k != tableName && visited(k) ==> (forall j in 0..old(len(t.tables[k].entries)) :: c35Typ[c35St(t, k)][old(c35Cnt)[c35St(t, k)] + j] == typeid(old(t.tables[k].entries[j])) && c35Val[c35St(t, k)][old(c35Cnt)[c35St(t, k)] + j] == ifaceval(old(t.tables[k].entries[j])))
 //@   loop 1: invariant forall s int, n int :: n < old(c35Cnt)[s] ==> c35Typ[s][n] == old(c35Typ)[s][n] && c35Val[s][n] == old(c35Val)[s][n]
 //@   loop 1: invariant len(t.tables["location"].entries) >= old(len(t.tables["location"].entries)) && c35Cnt[c35LocStmt(t)] == old(c35Cnt)[c35LocStmt(t)]
